@@ -136,7 +136,17 @@ fn tls_stateless(frame: &[u8]) -> Result<Option<Field>, ()> {
 fn hostile_frames(r: &mut Rng, n: usize) -> Vec<Vec<u8>> {
     let mut v = Vec::new();
     for _ in 0..n {
-        let f = match r.below(5) {
+        let f = match r.below(7) {
+            5 | 6 => {
+                // TCP Fast Open (RFC 7413): a SYN (or the SYN+ACK) that already carries data -- a
+                // one-segment ClientHello or the beginning of an HTTP request
+                let payload = if r.chance(2, 3) { scenario::client_hello(r, 20, 0) } else { b"GET /tfo HTTP/1.1\r\nHost: tfo.example\r\n\r\n".to_vec() };
+                let mut o = pkt::opt_mss(1460);
+                o.extend(pkt::opt_unknown(34, &[0x11, 0x22, 0x33, 0x44, 0x55, 0x66, 0x77, 0x88]));
+                let tcp = Tcp { sport: 40000 + r.below(1000) as u16, dport: 443, seq: r.u32(), flags: if r.chance(3, 4) { flags::SYN } else { flags::SYN | flags::ACK }, ack: 0, options: o, payload, ..Default::default() };
+                let ip = if r.chance(3, 4) { Ip::V4(V4::default()) } else { Ip::V6(pkt::V6::default()) };
+                pkt::build(if r.chance(1, 4) { Link::RawIp } else { Link::Ethernet }, &ip, &tcp)
+            }
             0 => { let n = r.usize(80); r.bytes(n) },
             1 => {
                 // invalid flag combination
@@ -185,16 +195,20 @@ pub fn run(ctx: &mut Ctx) {
         let nconn = 1 + r.usize(6);
         let conns: Vec<_> = (0..nconn).map(|i| { let k = *r.pick(&kinds); scenario::gen_conn(&mut r, t * 16 + i as u64, k, scenario::T0) }).collect();
         let mut trace: Vec<TFrame> = scenario::interleave(&mut r, &conns, Mix::Riffle);
-        for (i, f) in hostile_frames(&mut r, 3).into_iter().enumerate() {
+        for (i, f) in hostile_frames(&mut r, 4).into_iter().enumerate() {
             let pos = r.usize(trace.len() + 1);
             trace.insert(pos, TFrame { at_ms: scenario::T0 + i as u64, conn: usize::MAX, frame: f });
         }
         let started = std::time::Instant::now();
 
         // ---- reference: the three protocol analyzers, packet by packet
-        let tcp_a = huginn_net_tcp::HuginnNetTcp::new(Some(scenario::db()), 256).expect("tcp");
-        let mut tracker = ttl_cache::TtlCache::new(256);
-        let mut http_a = huginn_net_http::HuginnNetHttp::new(Some(scenario::db()), 256).expect("http");
+        // connection capacity: generous, or (a third of the traces) exactly the number of
+        // connections in the trace; the TCP analyzer's uptime tracker is sized the way its own
+        // capture loop sizes it for that capacity
+        let cap = if t % 3 == 0 { nconn } else { 256 };
+        let tcp_a = huginn_net_tcp::HuginnNetTcp::new(Some(scenario::db()), cap).expect("tcp");
+        let mut tracker = ttl_cache::TtlCache::new(huginn_net_tcp::uptime::tracker_capacity(cap));
+        let mut http_a = huginn_net_http::HuginnNetHttp::new(Some(scenario::db()), cap).expect("http");
         let mut reference: Vec<PerPacket> = Vec::new();
         let mut panicked = false;
         for f in &trace {
@@ -248,7 +262,7 @@ pub fn run(ctx: &mut Ctx) {
                     continue;
                 }
                 let cfg = AnalysisConfig { tcp_enabled: *tcp_on, http_enabled: *http_on, tls_enabled: *tls_on, matcher_enabled: *m_on };
-                let mut u = match HuginnNet::new(if with_db { Some(db) } else { None }, 256, Some(cfg)) {
+                let mut u = match HuginnNet::new(if with_db { Some(db) } else { None }, cap, Some(cfg)) {
                     Ok(u) => u,
                     Err(e) => {
                         ctx.judge(false, &[], "unified analyzer refused a valid configuration", || json!({"error": e.to_string()}));
@@ -297,10 +311,10 @@ pub fn run(ctx: &mut Ctx) {
                     }
                     let ok = problems.is_empty();
                     ctx.judge(ok, &[], "unified analyzer result differs from the protocol analyzers' (masked by configuration)", || {
-                        json!({"trace": t, "packet": i, "config": format!("tcp={tcp_on} http={http_on} tls={tls_on} matcher={m_on} db={with_db}"), "frame_hex": hex(&f.frame), "problems": problems})
+                        json!({"trace": t, "packet": i, "connections": nconn, "capacity": cap, "config": format!("tcp={tcp_on} http={http_on} tls={tls_on} matcher={m_on} db={with_db}"), "frame_hex": hex(&f.frame), "problems": problems})
                     });
                     if !want.is_empty() {
-                        ctx.bucket(&format!("t{}h{}l{}m{}d{}/{}", *tcp_on as u8, *http_on as u8, *tls_on as u8, *m_on as u8, with_db as u8, want.iter().map(|x| x.name).collect::<Vec<_>>().join("+")));
+                        ctx.bucket(&format!("{}t{}h{}l{}m{}d{}/{}", if cap == nconn { "tight/" } else { "" }, *tcp_on as u8, *http_on as u8, *tls_on as u8, *m_on as u8, with_db as u8, want.iter().map(|x| x.name).collect::<Vec<_>>().join("+")));
                     }
                 }
             }
@@ -317,7 +331,7 @@ pub fn spec() -> PropSpec {
         id: "C20",
         run,
         shards: super::shards_16,
-        rule: "seeded traces (handshakes with timestamps, HTTP/1.x and HTTP/2 exchanges, ClientHellos, garbage/truncated connections, plus injected hostile frames: random bytes, invalid flags, non-TCP, truncated, fragments) are fed packet by packet, with identical virtual arrival times, to the TCP and HTTP analyzers (own state) and the stateless TLS analysis, and to the unified analyzer in each of the 16 switch combinations with and without database; for every packet all reference analyzers accept, the unified result must contain exactly the enabled protocols' fields with identical raw parts, identical labels/qualities when matching is on and 'disabled' qualities without labels when it is off; a bucket is a distinct (configuration, set of fields present) pair",
+        rule: "seeded traces (handshakes with timestamps, HTTP/1.x and HTTP/2 exchanges, ClientHellos, garbage/truncated connections, plus injected frames: random bytes, invalid flags, non-TCP, truncated, fragments, Fast Open SYNs carrying a ClientHello or a request; connection capacity 256 or exactly the number of connections) are fed packet by packet, with identical virtual arrival times, to the TCP and HTTP analyzers (own state) and the stateless TLS analysis, and to the unified analyzer in each of the 16 switch combinations with and without database; for every packet all reference analyzers accept, the unified result must contain exactly the enabled protocols' fields with identical raw parts, identical labels/qualities when matching is on and 'disabled' qualities without labels when it is off; a bucket is a distinct (configuration, set of fields present) pair",
         assumptions: &[
             "packets that some protocol analyzer rejects are not compared (the property is conditioned on acceptance); the HTTP diagnosis field is not judged when matching is disabled",
             "the unified analyzer applies HTTP, then TCP, then TLS analysis and stops at the first error; the reference feeds the TCP tracker only when HTTP analysis accepted the packet, mirroring that order",
